@@ -5,3 +5,8 @@ import "github.com/cloudwego/eino/compose"
 // the same calls through compose/stream_reader.go's streamReaderPacker (hook compose/verif_c08.go)
 func composeCopy(sr SR, n int) []SR { return compose.VerifC08Copy(sr, n) }
 func composeMerge(srs []SR) SR      { return compose.VerifC08Merge(srs) }
+
+// item-wise identity roundtrips through the other wrappers of compose/stream_reader.go: the
+// interface path of unpackStreamReader (toAnyStreamReader + per-chunk type assertion) and withKey
+func composeViaAny(sr SR) SR { return compose.VerifC08ViaAny(sr) }
+func composeViaKey(sr SR) SR { return compose.VerifC08ViaKey(sr, "k") }
